@@ -711,7 +711,59 @@ func PossibleCmp(facts []TFact, isX, isY func(*Term) bool) Ord {
 
 // PossibleIntCmp: orderings of machine-integer x relative to constant k still possible.
 func PossibleIntCmp(facts []TFact, isX func(*Term) bool, k int64) Ord {
-	return PossibleIntCmpT(facts, isX, func(t *Term) bool { v, ok := termInt(t); return ok && v == k })
+	possible := PossibleIntCmpT(facts, isX, func(t *Term) bool { v, ok := termInt(t); return ok && v == k })
+	// facts against other constants bound x to an interval
+	const inf = int64(1) << 62
+	lo, hi := -inf, inf
+	for _, f := range facts {
+		if f.Kind != FInt || f.X == nil || f.Y == nil {
+			continue
+		}
+		var c int64
+		var o Ord
+		if v, ok := termInt(f.Y); ok && isX(f.X) {
+			c, o = v, f.Ord
+		} else if v, ok := termInt(f.X); ok && isX(f.Y) {
+			c, o = v, f.Ord.Flip()
+		} else {
+			continue
+		}
+		switch o {
+		case GT:
+			if c+1 > lo {
+				lo = c + 1
+			}
+		case GT | EQ:
+			if c > lo {
+				lo = c
+			}
+		case LT:
+			if c-1 < hi {
+				hi = c - 1
+			}
+		case LT | EQ:
+			if c < hi {
+				hi = c
+			}
+		case EQ:
+			if c > lo {
+				lo = c
+			}
+			if c < hi {
+				hi = c
+			}
+		}
+	}
+	if !(lo < k) {
+		possible &^= LT
+	}
+	if !(lo <= k && k <= hi) {
+		possible &^= EQ
+	}
+	if !(hi > k) {
+		possible &^= GT
+	}
+	return possible
 }
 
 // PossibleIntCmpT: orderings of machine-integer x relative to y still possible.
